@@ -13,6 +13,9 @@ CLAIMS = {
    text="Totality of parse_response / Info*Response::parse / merge (incl. shift-amount obligations `1 << n` => n < 64 against the dominating range tests), plus structural bookkeeping rules: every path of merge that extends the client list must record other.received; every client push of a multi-part version is paired with a received-bit store; get_info returns Some only on the len == num_clients edge after sorting.",
    note=TB + "Order-independence of the merged list beyond the final sort is not decided. One known finding (merge never updates `received`, D5) is listed in known_findings.json."),
 }
+CLAIMS["C03"] = dict(cat="proof", tech="CFG gate rule (edge-cut reachability of effect sites), effect inventory, variant tables, typestate reachability",
+   text="Complete static non-interference argument for Connection::feed_impl (0.6 and 0.7): every effect (write rooted in *self, &mut self call, any callback use, non-empty ReceivePacket) is unreachable from entry once the token gate's pass edges are cut; token accessors return Some exactly for token-carrying variants; the 0.7 unauthenticated token request is dominated by its three tests and reaches only the token reply; reader hint, Token::random and acceptor-stored tokens are checked; no interior mutability in Connection. All obligations discharged = the property holds for every datagram and every reachable state.",
+   note=TB + "Warnings are not application events; the caller's scratch buffer is not endpoint state; 0.6 connectionless datagrams are outside the statement. Path-insensitive except for the variant-typestate step of O3.")
 NA = {}
 m = {"version": 1,
      "setup_cmd": "cd /verif/engine/mirfacts && CARGO_NET_OFFLINE=true cargo build --release --offline",
